@@ -65,6 +65,18 @@ CLAIMS = {
         "note": "Tick counts beyond a few dozen are reached through the public ProgressStyle::get_tick_str(idx), not by ticking 2^32 times.",
         "technique": "runtime monitoring: panic monitor separating build-time rejection from draw-time panics",
     },
+    "C05": {
+        "text": "Exploration on the virtual clock (no sleeping): arrival processes of 200-1500 requests with gaps from 0 ns bursts over k*interval+-{0,1,999999} ns to hours, for a seeded third of the rates (quick) / every rate 1..=255 (thorough), on term_like_with_hz and term_like spy targets, standalone and as the target of a MultiProgress with 1-3 bars. Monitors: sliding-window law count <= 20 + R*T + 1 over all pairs of ordinary frames (potential function, exact integer arithmetic); every ordinary request >= one interval after the last painted frame is painted; position updates obey burst 10 / 1 ms on an unlimited target; staleness <= interval + 1 ms after every position update on a limited target; every painted frame shows the latest pos/len/message; forced draws always paint.",
+        "design_ref": "DESIGN.md §4 C05",
+        "note": "Trusted: the verif-hooks Instant shim (virtual clock) and the frame/time log of the spy terminal. Frames triggered by MultiProgress::println are exempt from the 'latest state' rule (they re-render no bar).",
+        "technique": "runtime monitoring: token-bucket trace laws checked over flush events on a virtual clock",
+    },
+    "C07": {
+        "text": "Exploration: (a) 3-40-step sequential histories with boundary-biased u64 arguments, getters/fraction compared with a wrapping/saturating model after every step, in release and debug (overflow-checking) builds; (b) 2-16 OS threads x 1-3 clones x up to 100000 inc/dec calls each on one shared bar with hidden / unlimited / 20 Hz targets and an optional 1 ms steady ticker: conservation of the wrapping sum after join (no lost update) and no backwards read in inc-only runs.",
+        "design_ref": "DESIGN.md §4 C07",
+        "note": "Interleavings are whatever the OS scheduler produces on 16 cores (contention indicator in the evidence: reads that observed foreign updates); no systematic schedule enumeration.",
+        "technique": "runtime monitoring: shadow model for getters + conservation/monotonicity monitor over concurrent increments",
+    },
 }
 
 ALL = [f"C{n:02d}" for n in range(1, 20)]
